@@ -1,5 +1,241 @@
-"""C20 — bounded stand-in for now (runtime contracts on the real code against an independent reference); see DESIGN.md."""
-BOUNDED_ONLY = True
+"""C20 — prediction rigidities follow their closed form.
+
+Real functions: local_prediction_rigidity, componentwise_prediction_rigidity (skmatter/metrics/_prediction_rigidities.py), for lists of 1..3 training and 1..2 test
+structures (the list lengths are concrete per unit: bounded in the NUMBER of structures), every number of environments per structure, every feature dimension,
+every alpha, every component partition (1..2 components per unit).
+
+Matrix layer + stacking: VS(A, B) (vertical stack), ROWOF(M, i) (row i as a 1 x d matrix), CMEAN(M) (column means as a 1 x d matrix), DGM(lo, hi, d) (diagonal 0/1
+mask of the feature block [lo, hi)).  Spec: S = sqrt(||X_atoms||_F^2 / n_atoms) (= sqrt of the summed column mean squares), structure matrix = rows CMEAN(A_s / S),
+Xinv = pinv(Ms^T Ms + alpha I), LPR of environment e of test structure t = 1 / (r Xinv r^T) with r = ROWOF(T_t, e) / S (LCPR: r masked to the component's feature
+block; CPR: r = CMEAN(T_t / S) masked), returned per test structure in input order with one entry per environment; rank difference = d - rank(Ms^T Ms + alpha I).
+Scaling laws (invariance under common rescaling, monotone in alpha, positivity) are consequences of the closed form: bounded runtime checks."""
+from pyvc.api import *
+from pyvc import matlayer as ML, skstubs
+from pyvc.matlayer import Mat, mul, add, sub, T, smul, Id, at, rows, cols, fro2
+from pyvc.engine import ExtNS, ExtClass, Opaque
+import ast
+
+PR = 'skmatter.metrics._prediction_rigidities'
+i_, j_ = Int('i'), Int('j')
+VS = z3.Function('VS', Mat, Mat, Mat)
+ROWOF = z3.Function('ROWOF', Mat, IntS, Mat)
+CMEAN = z3.Function('CMEAN', Mat, Mat)
+RANK = z3.Function('RANK', Mat, IntS)
+DGF = z3.Function('DGF', z3.ArraySort(IntS, RealS), IntS, Mat)      # diag(f(0), ..., f(n-1))
+SQRT = npstubs.SQRT
+
+def local_axioms():
+    A, B = z3.Consts('A!v B!v', Mat); i = z3.Int('i!v'); f_, g_ = z3.Consts('f!v g!v', z3.ArraySort(IntS, RealS))
+    return [ForAll([A, B], Implies(cols(A) == cols(B), And(rows(VS(A, B)) == rows(A) + rows(B), cols(VS(A, B)) == cols(A))), patterns=[VS(A, B)]),
+            ForAll([A, B, i], Implies(And(0 <= i, i < rows(A) + rows(B)), ROWOF(VS(A, B), i) == If(i < rows(A), ROWOF(A, i), ROWOF(B, i - rows(A)))), patterns=[ROWOF(VS(A, B), i)]),
+            ForAll([A, i], And(rows(ROWOF(A, i)) == 1, cols(ROWOF(A, i)) == cols(A)), patterns=[ROWOF(A, i)]),
+            ForAll([A], And(rows(CMEAN(A)) == 1, cols(CMEAN(A)) == cols(A)), patterns=[CMEAN(A)]),
+            ForAll([A], Implies(rows(A) == 1, ROWOF(A, 0) == A), patterns=[ROWOF(A, 0)]),
+            ForAll([f_, g_, i], Implies(ForAll([j_], Implies(And(0 <= j_, j_ < i), f_[j_] == g_[j_])), DGF(f_, i) == DGF(g_, i)), patterns=[z3.MultiPattern(DGF(f_, i), DGF(g_, i))]),
+            ForAll([f_, i], Implies(i >= 0, And(rows(DGF(f_, i)) == i, cols(DGF(f_, i)) == i)), patterns=[DGF(f_, i)])]
+
+def mean_stub(I, a, axis=None, **kw):
+    A = I.A(a)
+    if axis == 0 and A.ndim == 2 and A.tag and A.tag[0] == 'sq' and isinstance(A.tag[1], ArrRef):
+        npstubs.used('np.mean(X**2, axis=0) (column mean squares)')
+        r = I.fresh_arr('meansq', (A.shape[1],))
+        I.st.heap[r.id] = ArrVal(I.A(r).shape, I.A(r).elem, RealS, ('meansq', ML.mat_of(I, A.tag[1])))
+        return r
+    if axis == 0 and A.ndim == 2 and A.sort == RealS:
+        npstubs.used('np.mean(M, axis=0) (column means)')
+        C = CMEAN(ML.mat_of(I, a))
+        return I.new_arr(ArrVal((A.shape[1],), lambda c: at(C, 0, tz(c)), RealS, ('rowmat', C)))
+    raise Unsupported("np.mean form")
+
+def sum_attr(I, a):
+    def f(I2, *args, **kw):
+        A = I2.A(a)
+        n0 = conc(A.shape[0]) if A.ndim == 1 else None
+        if A.ndim == 1 and isinstance(n0, int) and n0 <= 4 and not args and not kw and not (A.tag and A.tag[0] == 'meansq'):
+            terms = [A.elem(IntVal(k)) for k in range(n0)]
+            return z3.simplify(z3.Sum(terms)) if len(terms) > 1 else (terms[0] if terms else IntVal(0))
+        if A.tag and A.tag[0] == 'meansq' and not args and not kw:
+            npstubs.used('sum of the column mean squares = squared Frobenius norm / number of rows')
+            M = A.tag[1]
+            return fro2(M) / z3.ToReal(rows(M))
+        return npstubs.np_sum(I2, a, *args, **kw)
+    return f
+
+def row_mat(I, x):
+    """matrix view of a list element for stacking: a 2-D array, or a 1-D array known to be a 1 x d matrix"""
+    A = I.A(x)
+    if A.ndim == 2: return ML.mat_of(I, x), A.shape
+    if A.ndim == 1 and A.tag and A.tag[0] in ('rowmat', 'rowof'):
+        return (A.tag[1] if A.tag[0] == 'rowmat' else ROWOF(A.tag[1], A.tag[2])), (1, A.shape[0])
+    raise Unsupported("vstack of a vector without a matrix view")
+
+def vstack_stub(I, seq, **kw):
+    npstubs.used('np.vstack')
+    if not isinstance(seq, (list, tuple)) or not seq: raise Unsupported("vstack of a symbolic list")
+    M, shp = row_mat(I, seq[0])
+    for x in seq[1:]:
+        M2, shp2 = row_mat(I, x)
+        sd = npstubs.same_dim(shp[1], shp2[1])
+        if sd is False: raise RaiseEx('ValueError')
+        if sd is None: I.ob('shape:np.vstack same number of columns', tz(shp[1]) == tz(shp2[1]), kind='shape')
+        M = VS(M, M2); shp = (conc(z3.simplify(tz(shp[0]) + tz(shp2[0]))), shp[1])
+    return ML.mk(I, M, shp)
+
+def cumsum_stub(I, seq, **kw):
+    npstubs.used('np.cumsum of a list of integers')
+    if isinstance(seq, ArrRef):
+        A = I.A(seq); n0 = conc(A.shape[0])
+        if A.ndim != 1 or not isinstance(n0, int) or n0 > 8: raise Unsupported("cumsum of a symbolic-length array")
+        seq = [A.elem(IntVal(k)) for k in range(n0)]
+    if not isinstance(seq, (list, tuple)): raise Unsupported("cumsum of an array")
+    out = []; acc = IntVal(0)
+    for v in seq:
+        acc = z3.simplify(acc + tz(v)); out.append(acc)
+    return npstubs.from_list(I, out)
+
+def getitem_hook(I, b, ix):
+    A = I.A(b)
+    if A.ndim == 2 and A.sort == RealS and A.tag and A.tag[0] == 'mat' and not isinstance(ix, (tuple, slice, ArrRef, list)) and ix is not None:
+        i = tz(ix)
+        I.ob('index:row-within-the-matrix', And(0 <= i, i < tz(A.shape[0])), kind='index')
+        M = A.tag[1]
+        return I.new_arr(ArrVal((A.shape[1],), lambda c: at(M, i, tz(c)), RealS, ('rowof', M, i)))
+    return ML.getitem_hook(I, b, ix)
+
+def reshape_attr(I, a):
+    def f(I2, *shape, **kw):
+        A = I2.A(a)
+        shp = tuple(shape[0]) if len(shape) == 1 and isinstance(shape[0], (tuple, list)) else tuple(shape)
+        if A.ndim == 1 and A.tag and A.tag[0] in ('rowof', 'rowmat') and len(shp) == 2 and conc(shp[0]) == 1 and conc(shp[1]) == -1:
+            M = ROWOF(A.tag[1], A.tag[2]) if A.tag[0] == 'rowof' else A.tag[1]
+            return ML.mk(I2, M, (1, A.shape[0]))
+        return npstubs.np_reshape(I2, a, shp)
+    return f
+
+def binop_hook(I, op, a, b, what):
+    # scalar / (1 x 1 matrix): the scalar quotient (numpy stores the size-1 result into a cell)
+    if op is ast.Div and not isinstance(a, ArrRef) and isinstance(b, ArrRef):
+        B = I.A(b)
+        if B.ndim == 2 and conc(B.shape[0]) == 1 and conc(B.shape[1]) == 1:
+            return to_real(tz(a)) / at(ML.mat_of(I, b), 0, 0)
+    return ML.binop_hook(I, op, a, b, what)
+
+def multiply_stub(I, a, b, **kw):
+    """np.multiply(row matrix, vector) = the row times the diagonal matrix of the vector"""
+    A, B = I.A(a), I.A(b)
+    if A.ndim == 2 and B.ndim == 1:
+        npstubs.used('np.multiply(matrix, vector) (= product with the diagonal matrix of the vector)')
+        sd = npstubs.same_dim(A.shape[1], B.shape[0])
+        if sd is False: raise RaiseEx('ValueError')
+        if sd is None: I.ob('shape:np.multiply vector length', tz(A.shape[1]) == tz(B.shape[0]), kind='shape')
+        return ML.mk(I, mul(ML.mat_of(I, a), DGF(z3.Lambda([j_], to_real(B.elem(j_))), tz(B.shape[0]))), A.shape)
+    raise Unsupported("np.multiply form")
+
+def extend_ext(ext):
+    ML.install(ext); skstubs.install(ext)
+    ext['mat_getitem'] = getitem_hook; ext['mat_binop'] = binop_hook
+    np_ = ext['modules']['np']
+    np_.vstack = vstack_stub; np_.mean = mean_stub; np_.cumsum = cumsum_stub; np_.multiply = multiply_stub
+    np_.linalg.matrix_rank = lambda I, a, **kw: RANK(ML.mat_of(I, a))
+    def pinv_stub(I, a, *args, **kw):
+        npstubs.used('np.linalg.pinv')
+        A = I.A(a); return ML.mk(I, ML.pinv(ML.mat_of(I, a)), (A.shape[1], A.shape[0]))
+    np_.linalg.pinv = pinv_stub
+    ext['arr_attrs'] = dict(ext['arr_attrs']); ext['arr_attrs']['reshape'] = reshape_attr; ext['arr_attrs']['sum'] = sum_attr
+    def tolist_attr(I, a):
+        def f(I2):
+            A = I2.A(a); n0 = conc(A.shape[0])
+            if A.ndim == 1 and isinstance(n0, int): return [A.elem(IntVal(k)) for k in range(n0)]
+            raise Unsupported("tolist of a symbolic-length array")
+        return f
+    ext['arr_attrs']['tolist'] = tolist_attr
+
+def setup(I, ktrain, ktest):
+    d = I.fresh('d', IntS); I.assume(d >= 1)
+    I.use_axioms('entries', ML.axioms('entries') + local_axioms()); I.use_axioms('ring', ML.axioms('ring'))
+    I.cur = {}
+    tr, te = [], []
+    for k in range(ktrain):
+        n = I.fresh(f'n_train{k}', IntS); I.assume(n >= 1); tr.append(ML.fresh_mat(I, f'A{k}', (n, d)))
+    for k in range(ktest):
+        n = I.fresh(f'n_test{k}', IntS); I.assume(n >= 1); te.append(ML.fresh_mat(I, f'T{k}', (n, d)))
+    alpha = I.fresh('alpha', RealS); I.assume(alpha > 0)
+    trm = [ML.mat_of(I, a) for a in tr]; tem = [ML.mat_of(I, a) for a in te]
+    def stack(ms):
+        M = ms[0]
+        for m in ms[1:]: M = VS(M, m)
+        return M
+    Xatom = stack(trm)
+    S = SQRT(fro2(Xatom) / z3.ToReal(rows(Xatom)))
+    Ms = stack([CMEAN(smul(1 / S, m)) for m in trm])
+    Xprime = add(mul(T(Ms), Ms), smul(alpha, Id(d)))
+    Xinv = ML.pinv(Xprime)
+    return dict(d=d, tr=tr, te=te, trm=trm, tem=tem, alpha=alpha, S=S, Ms=Ms, Xprime=Xprime, Xinv=Xinv, stack=stack)
+
+def qf(s, R): return at(mul(mul(R, s['Xinv']), T(R)), 0, 0)
+
+def u_lpr(ktrain, ktest):
+    q = PR + '.local_prediction_rigidity'
+    def inv(I, F, ai, g):
+        s = I.cur['s']; L = I.A(F['LPR_np']); XT = ML.mat_of(I, F['X_test'])
+        a = Int('a!inv')
+        return [('[C20]one-slot-per-test-environment', tz(L.shape[0]) == rows(XT)),
+                ('[C20]filled-slots-hold-the-closed-form', ForAll([a], Implies(And(0 <= a, a < ai), L.elem(a) == 1 / qf(s, smul(1 / s['S'], ROWOF(XT, a)))), patterns=[L.elem(a)]))]
+    def body(I):
+        s = setup(I, ktrain, ktest); I.cur['s'] = s
+        r = I.call_func(I.repo.get(q), [list(s['tr']), list(s['te']), s['alpha']], {})
+        LPR, rank_diff = r
+        I.ob('post[C20]:one-result-array-per-test-structure-in-input-order', BoolVal(isinstance(LPR, list) and len(LPR) == ktest), kind='post')
+        I.ob('post[C20]:rank-difference-is-the-feature-dimension-minus-the-rank-of-the-regularised-covariance', tz(rank_diff) == s['d'] - RANK(s['Xprime']), kind='post')
+        for t in range(ktest):
+            A = I.A(LPR[t]); Tm = s['tem'][t]
+            e = I.fresh(f'e{t}', IntS); I.assume(And(0 <= e, e < rows(Tm)))
+            I.ob(f'post[C20]:structure-{t}:one-entry-per-environment', And(BoolVal(A.ndim == 1), tz(A.shape[0]) == rows(Tm)), kind='post')
+            I.ob(f'post[C20]:structure-{t}:LPR-is-one-over-x-Xinv-x^T-with-the-globally-scaled-environment-features-and-the-per-structure-averaged-training-features',
+                 A.elem(e) == 1 / qf(s, smul(1 / s['S'], ROWOF(Tm, e))), kind='post')
+    return Unit(f'local_prediction_rigidity[{ktrain} train,{ktest} test]', body, loops={(q, 2): LoopContract(inv)}, functions=[q])
+
+def u_cpr(ktrain, ktest, ncomp):
+    q = PR + '.componentwise_prediction_rigidity'
+    def maskm(s, c):
+        lo, hi = s['bounds'][c], s['bounds'][c + 1]
+        return DGF(z3.Lambda([j_], If(And(j_ >= lo, j_ < hi), RealVal(1), RealVal(0))), s['d'])
+    def inv(I, F, ai, g):
+        s = I.cur['s']; L = I.A(F['LCPR_np']); XT = ML.mat_of(I, F['X_test']); ci = conc(F['ci'])
+        a = Int('a!inv')
+        out = [('[C20]one-row-per-test-environment-one-column-per-component', And(tz(L.shape[0]) == rows(XT), tz(L.shape[1]) == ncomp)),
+               ('[C20]filled-slots-of-this-component-hold-the-closed-form', ForAll([a], Implies(And(0 <= a, a < ai), L.elem(a, IntVal(ci)) == 1 / qf(s, mul(smul(1 / s['S'], ROWOF(XT, a)), maskm(s, ci)))), patterns=[L.elem(a, IntVal(ci))]))]
+        for c in range(ci):
+            out.append((f'[C20]component-{c}-stays-filled', ForAll([a], Implies(And(0 <= a, a < rows(XT)), L.elem(a, IntVal(c)) == 1 / qf(s, mul(smul(1 / s['S'], ROWOF(XT, a)), maskm(s, c)))), patterns=[L.elem(a, IntVal(c))])))
+        return out
+    def body(I):
+        s = setup(I, ktrain, ktest); I.cur['s'] = s
+        cd = [I.fresh(f'comp_dim{c}', IntS) for c in range(ncomp)]
+        for v in cd: I.assume(v >= 1)
+        I.assume(z3.Sum(cd) == s['d'] if ncomp > 1 else cd[0] == s['d'])          # the components partition the feature vector
+        s['bounds'] = [IntVal(0)]
+        for v in cd: s['bounds'].append(z3.simplify(s['bounds'][-1] + v))
+        comp_dims = npstubs.from_list(I, cd)
+        A0 = I.A(comp_dims); I.st.heap[comp_dims.id] = ArrVal(A0.shape, A0.elem, A0.sort, A0.tag, False, A0.vecs)
+        r = I.call_func(I.repo.get(q), [list(s['tr']), list(s['te']), s['alpha'], comp_dims], {})
+        CPR, LCPR, rank_diff = r
+        I.ob('post[C20]:rank-difference-is-the-feature-dimension-minus-the-rank-of-the-regularised-covariance', tz(rank_diff) == s['d'] - RANK(s['Xprime']), kind='post')
+        I.ob('post[C20]:one-LCPR-array-per-test-structure-in-input-order', BoolVal(isinstance(LCPR, list) and len(LCPR) == ktest), kind='post')
+        C = I.A(CPR)
+        I.ob('post[C20]:CPR-has-one-row-per-test-structure-and-one-column-per-component', And(BoolVal(C.ndim == 2), tz(C.shape[0]) == ktest, tz(C.shape[1]) == ncomp), kind='post')
+        for t in range(ktest):
+            A = I.A(LCPR[t]); Tm = s['tem'][t]
+            e = I.fresh(f'e{t}', IntS); I.assume(And(0 <= e, e < rows(Tm)))
+            I.ob(f'post[C20]:structure-{t}:one-LCPR-row-per-environment-one-column-per-component', And(BoolVal(A.ndim == 2), tz(A.shape[0]) == rows(Tm), tz(A.shape[1]) == ncomp), kind='post')
+            for c in range(ncomp):
+                I.ob(f'post[C20]:structure-{t}:component-{c}:LCPR-is-the-closed-form-with-the-environment-features-restricted-to-the-component-block',
+                     A.elem(e, IntVal(c)) == 1 / qf(s, mul(smul(1 / s['S'], ROWOF(Tm, e)), maskm(s, c))), kind='post')
+                I.ob(f'post[C20]:structure-{t}:component-{c}:CPR-is-the-closed-form-with-the-structure-averaged-features-restricted-to-the-component-block',
+                     C.elem(IntVal(t), IntVal(c)) == 1 / qf(s, mul(CMEAN(smul(1 / s['S'], Tm)), maskm(s, c))), kind='post')
+    return Unit(f'componentwise_prediction_rigidity[{ktrain} train,{ktest} test,{ncomp} components]', body, loops={(q, 4): LoopContract(inv)}, functions=[q])
+
+UNITS = [lambda: u_cpr(1, 1, 1), lambda: u_cpr(2, 2, 2), lambda: u_lpr(1, 1), lambda: u_lpr(2, 2), lambda: u_lpr(3, 2)]
 RT = True
-UNITS = []
-TRUSTED = ["independent numpy reference implementation of the property's formulas; tolerance policy |a-b| <= atol*scale + rtol*|b|"]
+TRUSTED = ["matrix layer + stacking operators VS / ROWOF / CMEAN with their dimension and row laws; np.mean(X**2, axis=0).sum() = ||X||_F^2 / n; np.linalg.pinv, matrix_rank as functions of the matrix",
+           "bounded in the NUMBER of structures (list lengths are concrete per unit: 1..3 training, 1..2 test structures); unbounded in environments per structure, feature dimension, alpha",
+           "scaling laws (invariance under a common rescaling, non-decreasing in alpha, strict positivity, LCPR with one component = LPR, CPR of a one-environment structure = LCPR): consequences of the closed form, bounded runtime checks"]
